@@ -165,6 +165,13 @@ class Actors:
         elif spec.get('eq') == 'unhashable':    # __eq__ only (a dataclass)
             ns['__eq__'] = lambda a, b: a is b
             ns['__hash__'] = None
+        if spec.get('also_proc'):
+            # a component whose class is a Processor as well (a system
+            # object stored on an entity): for the world it is what it was
+            # added as
+            bases = bases + (self.desper.Processor,)
+            ns['process'] = lambda self, dt=1: None
+            self.interp.probes['component_class_is_a_processor_too'] += 1
         try:
             cls = type(f'K{i}', bases, dict(ns))
         except TypeError:
@@ -295,6 +302,7 @@ class Interp:
         self.ndirect = Counter()
         self.in_process = self.clear_in_reap = False
         self.nested_frame = None
+        self.procs_changed_in_reap = False
         self.flip, self.emitted_now = None, 0
         self.top_op, self.top_start = None, 0
         self.probe_snap = {}
@@ -371,6 +379,17 @@ class Interp:
                     for op in script:
                         if op[0] in ('delete', 'probe'):
                             self.exec_op(op, nested=True)
+                        elif op[0] in ('add_proc', 'remove_proc'):
+                            # the processor set changes before any
+                            # processor of this frame has run
+                            if self.in_process and self.enabled \
+                                    and not self.clear_in_reap \
+                                    and self.nested_frame is None:
+                                self.procs_changed_in_reap = True
+                                self.probes['processor_set_changed_by_'
+                                            'on_remove_of_the_deletion_'
+                                            'pass'] += 1
+                                self.exec_op(op, nested=True)
                         elif op[0] == 'reap_now':
                             self.reap_now(op)
                         elif op[0] == 'clear_all':
@@ -1064,7 +1083,7 @@ class Interp:
 
     def op_add_proc(self, op, start):
         _, pi, prio = op
-        if self.depth:
+        if self.depth and not (self.in_life and self.in_process):
             return 'skip'
         p = self.actors.pinst(pi)
         pc = self.cfg['pinsts'][pi]
@@ -1177,7 +1196,7 @@ class Interp:
 
     def op_remove_proc(self, op, start):
         _, pc = op
-        if self.depth:
+        if self.depth and not (self.in_life and self.in_process):
             return 'skip'
         T = self.actors.RunProc if pc == -1 else self.actors.pclasses[pc]
         r = self.call(lambda: self.w.remove_processor(T), owner=('C07',),
@@ -1269,6 +1288,7 @@ class Interp:
         self.cur_dt = dt
         self.clear_in_reap = False
         self.nested_frame = None
+        self.procs_changed_in_reap = False
         pre = sorted(self.where.items(), key=repr)
         pre_procs = [j for q, j in self.procs]
         groups = []
@@ -1330,6 +1350,9 @@ class Interp:
             self.life_ok = False
             self.in_process = False
             self.no_scripts = False
+        if self.procs_changed_in_reap:
+            self.procs_changed_in_reap = False
+            expected_procs = [j for q, j in self.procs]
         if self.clear_in_reap:
             self.clear_in_reap = False
             self.nested_frame = None
@@ -1865,6 +1888,9 @@ def gen_config(prop, rng):
                        else ['chain', 'tree', 'tree', 'diamond'])
     ncls = rng.randint(3, 8) if prop != 'C07' else rng.randint(1, 3)
     handler_p = {'C01': .4, 'C02': .8, 'C05': .6, 'C06': .3, 'C07': 0}[prop]
+    if prop == 'C07' and rng.random() < .1:
+        handler_p = .7      # components whose callbacks change the
+                            # processor set
     classes = []
     ladder = prop == 'C06' and rng.random() < .03
     if ladder:
@@ -1918,6 +1944,8 @@ def gen_config(prop, rng):
             spec['late'] = True
         if prop in ('C01', 'C06') and rng.random() < .05:
             spec['abstract'] = True
+        if prop == 'C02' and not bases and rng.random() < .06:
+            spec['also_proc'] = True
         classes.append(spec)
     insts = []
     if ladder:
@@ -2353,6 +2381,15 @@ def generate(prop, run_seed, tier='quick', tolerate=frozenset()):
                      ['reap_now', rng.choice(cfg['ids']),
                       rng.choice(['delete', 'strip'])])
                     for _ in range(rng.randint(1, 2))]
+    if cfg['pinsts'] and crng.random() < (
+            .8 if prop == 'C07' and any(c.get('deco') for c in cfg['classes'])
+            else {'C05': .02}.get(prop, 0)):
+        # ... or changes the set of processors (none has run yet)
+        hs = [i for i, c in enumerate(cfg['insts'])]
+        for i in rng.sample(hs, min(len(hs), rng.randint(1, 3))):
+            scripts[f'rm:c{i}:{rng.choice([0, 0, 1])}'] = [
+                gen_op(rng.choice(['add_proc', 'remove_proc']), sh, rng,
+                       cfg, state)]
     if crng.random() < {'C05': .08, 'C07': .02}.get(prop, 0):
         # ... or runs a whole frame itself
         hs = [i for i, c in enumerate(cfg['insts'])]
